@@ -1042,15 +1042,25 @@ class UniformMeshGeometryConverter(GeometryConverter):
             f"with a uniform mesh of {self._uniformMesh}"
         )
         for sourceAssem in self._sourceReactor.core:
+            # the block parameters are mapped once the new assembly sits at its place in the core:
+            # Assembly.moveTo rescales volume-integrated parameters by the change of symmetry
+            # factor (1 outside a core -> 3 for the central assembly of a 1/3 core), which must not
+            # hit values that already are those of the source assembly's symmetric portion
             newAssem = self.makeAssemWithUniformMesh(
                 sourceAssem,
                 self._uniformMesh,
-                paramMapper=self.paramMapper,
+                paramMapper=None,
                 includePinCoordinates=self.includePinCoordinates,
             )
             src = sourceAssem.spatialLocator
             newLoc = self.convReactor.core.spatialGrid[src.i, src.j, 0]
             self.convReactor.core.add(newAssem, newLoc)
+            self.setAssemblyStateFromOverlaps(
+                sourceAssem,
+                newAssem,
+                self.paramMapper,
+                mapNumberDensities=False,
+            )
 
     def _clearStateOnReactor(self, reactor, cache):
         """
